@@ -1790,5 +1790,20 @@ def C20_all(g, tier):
     yield from C20_generic(g, tier)
 
 
-ALL = {f"C{i:02d}": fn for i, fn in enumerate(
+# ---- late additions: appended AFTER the main stream of a property and driven by their own PRNG, so that adding one
+# never changes a case the main stream generated before (no silent loss of earlier coverage)
+EXTRA = {}
+
+
+def _with_extra(pid, fn):
+    def gen(g, tier):
+        yield from fn(g, tier)
+        if pid in EXTRA:
+            g2 = G(g.r.getrandbits(30) if False else 7919 * int(pid[1:]) + 13)
+            g2.r.seed((g2.r.random(), os.environ.get("VERIF_SEED", "1")).__repr__())
+            yield from EXTRA[pid](g2, tier)
+    return gen
+
+
+ALL = {f"C{i:02d}": _with_extra(f"C{i:02d}", fn) for i, fn in enumerate(
     [C01, C02, C03, C04, C05, C06, C07, C08, C09, C10, C11, C12, C13, C14, C15, C16, C17, C18, C19, C20_all], start=1)}
